@@ -10,7 +10,6 @@ RULE = ("generated applications (1-3 commands, sub-commands to depth 2; default 
         "type; names that look like style tags) x every command path and the application page x terminal widths {40, 47, 60, 80, 120, "
         "200} (thorough: 40..200 sampled) x ANSI / plain; plus textwrap.wrap alone over adversarial ASCII texts x widths 1..40; "
         "non-trivial = a page with >= 1 argument or option and >= 1 wrapped paragraph / a text that wraps; distinct by request")
-THEOREMS = ["wrap_total", "wrap_value_error", "wrap_lines_fit", "wrap_lines_nonempty", "wrap_lines_no_newline", "wrap_keeps_text", "command_page_complete", "command_page_inherited", "sub_block_complete", "render_option_names", "render_argument_name", "synopsis_lists_all", "usage_complete", "usage_entries_origin", "application_page_complete", "hidden_never_listed", "hidden_never_listed_names", "hidden_never_listed_app", "render_elem_ok", "page_fits", "page_fits_null", "page_renders_null", "command_help_renders_and_fits", "application_help_renders_and_fits", "render_error_kind", "help_word_dropped", "help_same_page_partial (commands without default sub-commands)"]
 TRUSTED = ["textwrap.wrap (CPython) is modelled by hand in Model/Wrap.v for texts without tabs whose word characters are ASCII; the "
            "model is compared with textwrap.wrap itself on every run", "the layout elements are read from BlockLayout._elements / "
            "_indentations after _render_help (no source change)"]
